@@ -758,6 +758,90 @@ def _run_recall(fn, key, res, self0, args0, kwargs0, rec, report, count):
                {"variant": "two calls with the same arguments returned the very same object"})
 
 
+# fields that may be exchanged with .replace(): exactly those whose derived quantities the
+# constructors recompute (a covariance has its precision and log-determinant as further init
+# fields: dataclasses.replace copies them, by design of that function)
+REPLACE_FIELDS = {
+    "GaussianMeasure": ("nu", "ln_beta"), "GaussianDiagMeasure": ("nu", "ln_beta"),
+    "GaussianPDF": ("mu",), "GaussianDiagPDF": ("mu",),
+    "ConjugateFactor": ("Lambda", "nu", "ln_beta"), "LinearFactor": ("nu", "ln_beta"),
+    "OneRankFactor": ("v", "g", "nu", "ln_beta"),
+    "ConditionalGaussianPDF": ("M", "b"), "ConditionalGaussianDiagPDF": ("M", "b"),
+    "HeteroscedasticExpConditional": ("M", "b", "A", "W"),
+    "HeteroscedasticCoshM1Conditional": ("M", "b", "A", "W"),
+    "HeteroscedasticHeavisideConditional": ("M", "b", "A", "W"),
+    "HeteroscedasticReLUConditional": ("M", "b", "A", "W"),
+    "NNControlGaussianConditional": ("Sigma",),
+}
+FRESH_FIELDS = {
+    "HeteroscedasticExpConditional": ("M", "b", "A", "W"),
+    "HeteroscedasticCoshM1Conditional": ("M", "b", "A", "W"),
+    "HeteroscedasticHeavisideConditional": ("M", "b", "A", "W"),
+    "HeteroscedasticReLUConditional": ("M", "b", "A", "W"),
+    "NNControlGaussianConditional": ("Sigma", "num_cond_dim", "num_control_dim", "control_func"),
+}
+
+
+def _run_replace(fn, key, self0, args0, kwargs0, rec, report, count):
+    """obj.replace(field=value) must behave like an object freshly built with that value: the call
+    on the one and on the other give the same result (state that replace carries over although
+    it belongs to the old value: memoised integrals, a precision kept next to new factors)."""
+    from jax import numpy as jnp
+
+    cname = type(self0).__name__
+    fields = REPLACE_FIELDS.get(cname)
+    if not fields or not hasattr(self0, "replace"):
+        return
+    # the fresh object recomputes its precision by Cholesky where the replaced one keeps the
+    # stored one: two roundings of the same matrix, comparable at 1e-8 on calm inputs only
+    if not _calm_inputs(self0, args0, kwargs0) or _worst_condition(self0, args0, kwargs0) > 1e6:
+        rec.count("form_replace_out_of_domain")
+        return
+    n = _counts.get(("replace", key), 0)
+    _counts[("replace", key)] = n + 1
+    present = [f for f in fields if self0.__dict__.get(f) is not None]
+    if not present:
+        return
+    f = present[n % len(present)]
+    a = np.asarray(self0.__dict__[f], dtype=float)
+    if f in ("Sigma", "Lambda"):
+        new = a * 1.7
+    elif f == "g":
+        new = a * 0.6 + 0.2
+    else:
+        new = a * 0.8 + 0.15
+    new = jnp.asarray(new)
+    try:
+        warm = clone_state(self0)
+        try:
+            fn(warm, *args0, **kwargs0)  # the object was in use before it is replaced
+        except Exception:
+            pass
+        o_rep = warm.replace(**{f: new})
+        base = FRESH_FIELDS.get(cname) or _rebuilders().get(type(self0))
+        kw = {k: (new if k == f else self0.__dict__.get(k)) for k in base
+              if k == f or self0.__dict__.get(k) is not None}
+        if hasattr(self0, "num_dim") and cname == "ConstantFactor":
+            kw["num_dim"] = self0.num_dim
+        o_new = type(self0)(**kw)
+        r_new = fn(o_new, *args0, **kwargs0)
+    except Exception:
+        rec.count("form_replace_setup_raises")
+        return
+    try:
+        r_rep = fn(o_rep, *args0, **kwargs0)
+    except Exception as e:
+        report("FORM", "replace-raises", f"{key}:{f}", {"error": repr(e)[:200]})
+        return
+    count("FORM", key)
+    rec.evaluations += 1
+    rec.count("form_replace_evaluated")
+    bad = compare(r_new, r_rep)
+    if bad is not None:
+        report("FORM", "replace-value", f"{key}:{f}",
+               dict(bad, variant=f"call on obj.replace({f}=...) vs on a freshly built object"))
+
+
 INTEGRATE_NAMES = {
     "1": "integral", "x": "integrate_x", "(Ax+a)": "integrate_general_linear",
     "xx'": "integrate_xxT", "(Ax+a)'(Bx+b)": "integrate_general_quadratic_inner",
@@ -881,6 +965,8 @@ def run(fn, name, key, res, pre, state, report, count):
         _run_recall(fn, key, res, self0, args0, kwargs0, rec, report, count)
     if _is_libobj(self0) and (n_call <= FIRST_INT or n_call % EVERY == 0):
         _run_siblings(name, key, res, self0, args0, kwargs0, rec, report, count)
+    if _is_libobj(self0) and (n_call <= FIRST or n_call % EVERY == 0):
+        _run_replace(fn, key, self0, args0, kwargs0, rec, report, count)
     # ---- int variant
     cands = _candidates(self0, args0, kwargs0)
     if not cands:
@@ -921,3 +1007,4 @@ def run(fn, name, key, res, pre, state, report, count):
     if bad is not None:
         report("FORM", "int-value", f"{key}:{label.split('.')[-1] if cand[2] else 'array'}",
                dict(bad, input=label, variant="integer-valued input as int64 vs float64"))
+
